@@ -114,14 +114,27 @@ func signedMsgCore(c *an.Check) {
 	// ExtractPubKey: key comes from the claimed sender id.
 	epk := p.Func("peer", "SignedMsg", "ExtractPubKey")
 	c.Gate(an.GateSpec{Construct: "peer.SignedMsg.ExtractPubKey success-return", Fn: epk, Sink: successReturn, Reqs: []an.Req{
-		an.CallOK("ParseFromPeerID ok", an.R("peer", "SignedMsg", "ParseFromPeerID")),
+		// the sender id is parsed by ParseFromPeerID or by what that method consists of: IDB58Decode(m.GetFromPeerId())
+		an.AnyOf("ParseFromPeerID ok", an.CallOK("ParseFromPeerID ok", an.R("peer", "SignedMsg", "ParseFromPeerID")),
+			an.Req{Name: "IDB58Decode(m.GetFromPeerId()) ok", Holds: func(s *an.State, at ssa.Instruction) bool {
+				for _, call := range an.Calls(epk, an.R("peer", "", "IDB58Decode")) {
+					if e := an.ErrResult(call, -1); e != nil && s.IsNil(e) && an.ResultCallTo(s.Canon(call.Call.Args[0]), an.R("peer", "SignedMsg", "GetFromPeerId")) != nil {
+						return true
+					}
+				}
+				return false
+			}}),
 		an.CallOK("ID.ExtractPublicKey ok", an.R("peer", "ID", "ExtractPublicKey")),
 	}})
 	if epk != nil {
 		calls := an.Calls(epk, an.R("peer", "ID", "ExtractPublicKey"))
 		okProv := len(calls) == 1
 		for _, call := range calls {
-			okProv = okProv && an.ResultCallTo(call.Call.Args[0], an.R("peer", "SignedMsg", "ParseFromPeerID")) != nil
+			fromParse := an.ResultCallTo(call.Call.Args[0], an.R("peer", "SignedMsg", "ParseFromPeerID")) != nil
+			if dc := an.ResultCallTo(call.Call.Args[0], an.R("peer", "", "IDB58Decode")); dc != nil && an.ResultCallTo(dc.Call.Args[0], an.R("peer", "SignedMsg", "GetFromPeerId")) != nil {
+				fromParse = true
+			}
+			okProv = okProv && fromParse
 		}
 		c.Require(okProv, "PROVENANCE", "peer.SignedMsg.ExtractPubKey extracts key from parsed sender id", epk, "", len(calls), "ExtractPublicKey(ParseFromPeerID())", "the key is not extracted from the parsed sender id")
 	}
